@@ -74,7 +74,8 @@ def run(ctx):
     recs = [r for r in recs if r.bin]
     maxg = 40 if not thorough else 500
     recs = recs[:maxg]
-    res, errs = lrobl.check_all(recs, lrobl.LR_CHECKS, "c02")
+    res, errs = lrobl.check_all(recs, lrobl.LR_CHECKS + [lrobl.X_CHECK], "c02")
+    n_term = 0
     reported = 0
     total = 0
     distinct = set()
@@ -82,7 +83,10 @@ def run(ctx):
     disagreements = 0
     samples = []
     for r in recs:
-        ok = all(res.get(r.name, {}).values()) and bool(res.get(r.name))
+        rr = dict(res.get(r.name, {}))
+        xc = rr.pop("xc", False)
+        n_term += 1 if xc else 0
+        ok = all(rr.values()) and bool(rr)
         ctx.add_obligation("R: lr_valid(gocc's tables for %s) = true by vm_compute" % r.name, ok, str(res.get(r.name)) + str(errs[:1]))
         ea = cfggen.Earley(r.g)
         inputs = gen_inputs(r.g, ctx.rng, ninp, extra_terms=["zz"])
@@ -143,7 +147,10 @@ def run(ctx):
         "verdict_histogram": dict(verdicts),
         "traces_validated_against_impl": total,
         "disagreements": disagreements,
-        "partial": "termination on non-sentences is covered by the correspondence check and (when LR/ErrorPos.v is present) by C02_terminates",
+        "termination_theorem_instantiated_for": n_term,
+        "partial": "C02_parse_terminates needs x_checks (canonicity + reachable nonterminals productive): instantiated for %d of %d grammars "
+                   "of this run; for the others (reachable unproductive nonterminals, no sentences at all) termination on non-sentences is "
+                   "covered by the correspondence run only" % (n_term, len(recs)),
     }, [
         "the generated Parse loop is modelled by hand (LR/Parse.v), tied by differential testing; tables are read from the compiled parser "
         "through an injected dump function in the scratch copy of the generated package",
